@@ -15,7 +15,7 @@ from ..runner import src_prefix
 
 TYPES = {
     "len": [("m", "metre", None), ("cm", "centimetre", 0.01), ("km", "kilometre", 1000.0), ("mm", "millimetre", 0.001), ("dm", "decimetre", 0.1)],
-    "tim": [("s", "second", None), ("min", "minute", 60.0), ("h", "hour", 3600.0)],
+    "tim": [("s", "second", None), ("min", "minute", 60.0), ("h", "hour", 3600.0), ("cyc/s", "cycles per second", "recip:1.0")],
     "amt": [("mol", "mole", None), ("lbmol", "pound-mole", 453.59237), ("gmol", "gram-mole", 1.0), ("kmol", "kilomole", 1000.0)],
     "tmp": [("K", "kelvin", None), ("degX", "degree X", (1.0, 273.15)), ("degY", "degree Y", (5.0 / 9.0, 255.0))],
 }
@@ -91,6 +91,11 @@ class RegGen:
         """(frombase, tobase) for factor k (unit = k base units) or affine (a, b): base = x*a + b."""
         r = self.rng.random()
         pc = self.cfg.get("callable_prob", 0.3)
+        if isinstance(k, str):  # "recip:<a>": base = a / x, its own inverse; fails for the amount 0
+            if r < 0.5:
+                return {"call": k}, {"call": k}
+            a = float(k.split(":")[1])
+            return "%r / %%f" % a, "%r / %%f" % a
         if isinstance(k, tuple):
             a, b = k
             if r >= pc:
@@ -463,7 +468,10 @@ class RegMonitor(Mon.Monitor):
                 sim.check(_identity(info), "C14.base_first_identity", {"case": "base_not_identity"}, step, "base unit %r does not convert by identity" % (u,))
             elif kf is not None and not reg.get("bad"):
                 for x in (1.0, 7.5):
-                    want_b = x * kf[0] + kf[1] if isinstance(kf, list) else x * kf
+                    if isinstance(kf, str):
+                        want_b = float(kf.split(":")[1]) / x
+                    else:
+                        want_b = x * kf[0] + kf[1] if isinstance(kf, list) else x * kf
                     got_b = info.tobase(x)
                     back = info.frombase(got_b)
                     sim.check(
